@@ -217,7 +217,7 @@ class replace_op(base_op_state):
         assert revert_point == plan.current_state
         plan._remove_pkg_blockers(old_choices)
         l = plan.state.fill_slotting(self.pkg, force=self.force)
-        if l:
+        if l and not self.force:
             # revert... limiter.
             l2 = plan.state.fill_slotting(old)
             plan.backtrack(revert_point)
